@@ -112,11 +112,22 @@ func (c *Call) MethodName() string {
 
 // ---------------------------------------------------------------- value stripping
 
-// strip removes value-preserving wrappers: ChangeType, MakeInterface, ChangeInterface, and (optionally) integer
-// width conversions.
+// strip removes value-preserving wrappers: ChangeType, MakeInterface, ChangeInterface, (optionally) integer
+// width conversions, and the load of a local variable cell that is assigned exactly once (a local that is captured by a
+// closure or has its address taken lives in such a cell: x := e; ... use(x)).
 func strip(v ssa.Value, widths bool) ssa.Value {
-	for {
+	for n := 0; n < 64; n++ {
 		switch x := v.(type) {
+		case *ssa.UnOp:
+			if x.Op == token.MUL {
+				if al, ok := x.X.(*ssa.Alloc); ok && structOf(al.Type().(*types.Pointer).Elem()) == nil {
+					if s := singleStore(al); s != nil {
+						v = s
+						continue
+					}
+				}
+			}
+			return v
 		case *ssa.ChangeType:
 			v = x.X
 		case *ssa.MakeInterface:
@@ -136,6 +147,7 @@ func strip(v ssa.Value, widths bool) ssa.Value {
 			return v
 		}
 	}
+	return v
 }
 
 func isIntegral(t types.Type) bool {
